@@ -450,7 +450,7 @@ pub fn generate(tier: &str, seed: u64, out: &mut Out) {
     }
 
     // ---- arcs: all orientations, near-collinear, tiny and huge radii
-    let n_arc = if thorough { 1500 } else { 220 };
+    let n_arc = if thorough { 4000 } else { 500 };
     for i in 0..n_arc {
         let k = *r.pick(&[Coord::Playfield, Coord::Large, Coord::Fractional, Coord::Tiny, Coord::SmallInt]);
         let s = *r.pick(&[Shape::Free, Shape::Free, Shape::NearCollinear, Shape::Collinear, Shape::Duplicates]);
@@ -463,7 +463,7 @@ pub fn generate(tier: &str, seed: u64, out: &mut Out) {
         run_case(&CurveCase { mode: (i % 4) as u8, pts, len: None }, out);
     }
     // constructed: three points on a circle of chosen radius
-    for i in 0..(if thorough { 400 } else { 60 }) {
+    for i in 0..(if thorough { 1200 } else { 150 }) {
         let rad = *r.pick(&[0.03f64, 0.2, 1.0, 7.0, 60.0, 400.0, 3000.0, 20000.0, 150000.0, 2.0e6]);
         let (cx, cy) = (r.range(-500, 500) as f64, r.range(-400, 400) as f64);
         let t0 = r.unit() * 6.28;
@@ -480,7 +480,7 @@ pub fn generate(tier: &str, seed: u64, out: &mut Out) {
     }
 
     // ---- Bezier with 2..10 control points, Catmull with 2..8, linear
-    let n_b = if thorough { 1200 } else { 160 };
+    let n_b = if thorough { 3500 } else { 400 };
     for i in 0..n_b {
         let (ty, n) = match i % 3 {
             0 => (2u8, r.range(2, 10) as usize),
@@ -515,7 +515,7 @@ pub fn generate(tier: &str, seed: u64, out: &mut Out) {
         out.count("source:layouts4");
         run_case(&CurveCase { mode: (li % 4) as u8, pts, len: None }, out);
     }
-    for i in 0..(if thorough { 900 } else { 120 }) {
+    for i in 0..(if thorough { 2500 } else { 300 }) {
         let pts = crate::registry::c16::random_points(&mut r, 12);
         if crate::registry::c16::max_abs(&pts) > 5000.0 {
             continue;
